@@ -1,6 +1,10 @@
 mod quadlet;
 mod systemd_unit;
 
+#[cfg(quadlet_rs_verif)]
+#[path = "/verif/harness/verif_driver.rs"]
+mod verif_driver;
+
 use log::{debug, error, warn};
 
 use self::quadlet::logger::*;
@@ -311,6 +315,11 @@ fn enable_service_file(output_path: &Path, service: &SystemdUnitFile) {
 }
 
 fn main() {
+    #[cfg(quadlet_rs_verif)]
+    if verif_driver::maybe_run() {
+        return;
+    }
+
     let kmsg_logger = KmsgLogger::new();
 
     let cfg = match validate_args(kmsg_logger) {
